@@ -194,6 +194,11 @@ func runProperty(prop, tier string) int {
 			continue
 		}
 		cfg.Unwind = atoiDef(hc["unwind"], cfg.Unwind)
+		if c := hc["cut"]; c != "" { // cut=<function suffix>:<iterations>
+			if fn, n, ok := strings.Cut(c, ":"); ok {
+				cfg.CutFn, cfg.CutN = fn, atoiDef(n, 8)
+			}
+		}
 		cfg.MaxPaths = atoiDef(hc["maxpaths"], cfg.MaxPaths)
 		cfg.MaxDecisions = atoiDef(hc["maxdecisions"], cfg.MaxDecisions)
 		cfg.MaxSymLen = atoiDef(hc["maxsymlen"], cfg.MaxSymLen)
